@@ -161,6 +161,8 @@ def build(template_path, out_path, canary=False, repo=None, mutate=None):
                                    "ret": mm.group(3), "text": ""}
                         elif op == "around_all":
                             cur = {"op": op, "anchor": arg, "text": ""}
+                        elif op in ("nested_sig", "nested_body"):
+                            cur = {"op": op, "name": arg, "text": ""}
                         elif op in ("before", "after", "after_stmt"):
                             cur = {"op": op, "anchor": arg, "text": "", "nth": nth}
                         elif op == "tail":
